@@ -252,6 +252,25 @@ theorem datetime_key_trichotomy (a b : XmlDateTime)
     · exact Or.inr (Or.inr (h2.mp c2))
     · exact Or.inr (Or.inl (datetime_key_inj a b ha hb hta htb ho (by omega)))
 
+/-- the calendar + clock order on real same-offset values is a strict order: irreflexive and
+transitive (with `datetime_key_trichotomy`: a strict total order, the one `_cmp` computes) -/
+theorem datetime_order_strict (a b c : XmlDateTime)
+    (ha : realDate a.year a.month a.day) (hb : realDate b.year b.month b.day)
+    (hc : realDate c.year c.month c.day)
+    (hta : todOK a.hour a.minute a.second a.frac) (htb : todOK b.hour b.minute b.second b.frac)
+    (htc : todOK c.hour c.minute c.second c.frac)
+    (hab : a.offset = b.offset) (hbc : b.offset = c.offset) :
+    ¬ dtLt a a ∧ (dtLt a b → dtLt b c → dtLt a c) := by
+  have oab : a.offset.getD 0 = b.offset.getD 0 := by rw [hab]
+  have obc : b.offset.getD 0 = c.offset.getD 0 := by rw [hbc]
+  have oac : a.offset.getD 0 = c.offset.getD 0 := by rw [hab, hbc]
+  have haa := datetime_key_lt_iff a a ha ha hta hta rfl
+  have h1 := datetime_key_lt_iff a b ha hb hta htb oab
+  have h2 := datetime_key_lt_iff b c hb hc htb htc obc
+  have h3 := datetime_key_lt_iff a c ha hc hta htc oac
+  refine ⟨fun h => ?_, fun x y => ?_⟩
+  · have := haa.mpr h; omega
+  · have := h1.mpr x; have := h2.mpr y; exact h3.mp (by omega)
 example : todOK 23 59 59 5 ∧ (⟨23, 59, 59, 5, some 60⟩ : XmlTime).offset = some 60 := by
   unfold todOK; exact ⟨by omega, rfl⟩
 
